@@ -344,6 +344,12 @@ class Ssh2Server:
     def __call__(self, c):
         sp = self.spec
         srv = c.server
+        if sp.get('garbage_from') is not None and c.idx >= sp['garbage_from']:
+            srv.phases[c.idx] = 'rate'
+            if sp.get('garbage_bytes', b'0123456789'):
+                c.send(sp.get('garbage_bytes', b'0123456789'), 'garbage')
+            c.wait_eof(2.0)
+            return
         for ln in sp.get('pre', []):
             c.send(ln + b'\r\n', 'pre')
         c.send(sp.get('banner', b'SSH-2.0-OpenSSH_8.9') + sp.get('eol', b'\r\n'), 'banner')
@@ -381,11 +387,20 @@ class Ssh2Server:
             phase = 'first'
         srv.phases[c.idx] = phase
         c.log('phase', phase, [x.decode('latin1') for x in ckex], [x.decode('latin1') for x in ckey])
+        first_msg = True
         while True:
             pk = c.recv_packet()
             if pk is None:
                 break
             t, body, _raw = pk
+            if first_msg and len(ckey) == 1 and len(ckex) == 1 and ckex[0] in gex_names:
+                # a host-key probe whose kex is a group exchange and a GEX probe against a one-key server send the same
+                # KEXINIT; they differ in the request: the host-key probe uses send_init_gex()'s defaults
+                is_hk = (t == 34 and struct.unpack('>III', body[:12]) == (1024, 2048, 8192)) or t == 30
+                phase = 'hostkey' if is_hk else 'gex'
+                srv.phases[c.idx] = phase
+                c.log('phase', phase, [x.decode('latin1') for x in ckex], [x.decode('latin1') for x in ckey])
+            first_msg = False
             if t == 30:    # KEXDH_INIT / ECDH_INIT
                 blob = sp.get('hostkeys', {}).get(ckey[0] if ckey else b'')
                 if blob is None:
@@ -396,7 +411,8 @@ class Ssh2Server:
                 c.send(frame2(kexdh_reply(blob)), 'kexdh_reply')
             elif t == 34:  # GEX_REQUEST
                 mn, pf, mx = struct.unpack('>III', body[:12])
-                srv.gex_requests.append((c.idx, ckex[0].decode() if ckex else '', mn, pf, mx)) if hasattr(srv, 'gex_requests') else None
+                if hasattr(srv, 'gex_requests') and srv.phases.get(c.idx) != 'hostkey':
+                    srv.gex_requests.append((c.idx, ckex[0].decode() if ckex else '', mn, pf, mx))
                 ans = sp.get('gex', lambda a, b, d: None)(mn, pf, mx)
                 if ans is None or ans == 'close':
                     c.close()
@@ -414,7 +430,12 @@ class Ssh2Server:
                     return
                 c.send(frame2(gex_group(ans)), 'gex_group')
             elif t == 32:  # GEX_INIT
-                blob = sp.get('hostkeys', {}).get(ckey[0] if ckey else b'') or ed25519_blob()
+                blob = sp.get('hostkeys', {}).get(ckey[0] if ckey else b'')
+                if blob is None:
+                    if srv.phases.get(c.idx) == 'hostkey':
+                        c.close()
+                        return
+                    blob = ed25519_blob()
                 c.send(frame2(kexdh_reply(blob, 33)), 'gex_reply')
             else:
                 pass
